@@ -96,7 +96,7 @@ PROPS = {
     # C12: schedule independence / termination / no leak (sched), concurrent decoding through the pools (concdec); the
     # protocol theorems are about the transition systems of Impl/Par.lean, pinned to the source by the skeleton obligations
     "C12": {"suites": [("sched", 1.0)], "theorems": PAR + L1_AGG[:3],
-            "modules": DEFAULT_MODULES + ["RProofs.Agg", "RProofs.Par", "RProofs.Facts.Skeleton"], "owns": {"sched", "concdec"},
+            "modules": DEFAULT_MODULES + ["RProofs.Agg", "RProofs.Par", "RProofs.Facts.Skeleton"], "owns": {"sched", "concdec", "concagg"},
             "race_suites": [("sched", 1.0)]},
     "C13": {"suites": [("frozen", 1.0), ("frozenmis", 0.5)], "theorems": ["RModel.BSet.canon_ext", "RModel.Facts.frozenCookie_spec"],
             "modules": DEFAULT_MODULES + [FACTS],
